@@ -50,16 +50,13 @@ Qed.
 (* so the conclusion of main_bound_state is a real statement: at the start state s0
    the estimate exceeds the optimum by at most margin * 3/2 *)
 Example lx_bound :
-  (- 0 <= lV (loR lxV lxSol lxTch lxPi lxQ lxRet lxIv) 0 - (-2) <= Q2R (1#100) * Q2R (3#2))%R.
+  (- Q2R (tu lxT) <= lV (loR lxV lxSol lxTch lxPi lxQ lxRet lxIv) 0 - cVs (lcR lxN lxVpi lxVs lxW) 0
+     <= Q2R (teps lxT) * cN (lcR lxN lxVpi lxVs lxW) 0)%R.
 Proof.
-  pose proof (main_bound_state 3 2 lxP lxR lxAv lxAb lxIni 1 lxV lxSol lxTch lxPi lxQ lxRet lxIv
-                lxN lxVpi lxVs lxW lxT lx_check _) as H.
   assert (He : (0 <= Q2R (teps lxT))%R) by (unfold Q2R; simpl; lra).
-  specialize (H He lx_optfix 0%nat (Nat.lt_0_succ 2) eq_refl). destruct H as (H & _).
-  unfold lcR, mk_cert, lxT in H. simpl in H.
-  replace (Q2R 0) with 0%R in H by (unfold Q2R; simpl; lra).
-  replace (Q2R (-2)) with (-2)%R in H by (unfold Q2R; simpl; lra).
-  exact H.
+  apply (main_bound_state 3 2 lxP lxR lxAv lxAb lxIni 1 lxV lxSol lxTch lxPi lxQ lxRet lxIv
+           lxN lxVpi lxVs lxW lxT lx_check (cVs (lcR lxN lxVpi lxVs lxW)) He lx_optfix
+           0%nat (Nat.lt_0_succ 2) eq_refl).
 Qed.
 
 (* machine: heuristic 0 on the states, junk 7 at the absorbing state; margin 1/100 *)
